@@ -1234,6 +1234,17 @@ func (c *Client) negotiate(parent context.Context) error {
 	}
 	defer resp.Close()
 
+	if resp.typ == MsgErrorMessage {
+		// the reader rejected the request itself: report its status, not a type mismatch
+		errMsg := ErrorMessage{}
+		if err := resp.UnmarshalTo(&errMsg); err != nil {
+			return err
+		}
+		if err := errMsg.LLRPStatus.Err(); err != nil {
+			return fmt.Errorf("reader rejected %v: %w", MsgSetProtocolVersion, err)
+		}
+	}
+
 	if err := resp.isResponseTo(MsgSetProtocolVersion); err != nil {
 		return err
 	}
